@@ -275,5 +275,95 @@ Proof.
             (plans_complete_sound fuel H3) validR (rule_start_ok H4) (rule_arcT_ok H) (rule_arcN_ok H)
             (fw1_sound H2) (fw2_sound H1) (noconf_sound H0)); eassumption.
 Qed.
+
+(* ================= soundness side: the plan table contains only arcs and first chains ================= *)
+Definition opt_is (o : option N) (x : N) : bool := match o with Some y => y =? x | None => false end.
+Lemma opt_is_ok o x : opt_is o x = true -> o = Some x.
+Proof. destruct o as [y|]; simpl; [|discriminate]. intros H. apply N.eqb_eq in H. subst. reflexivity. Qed.
+Definition arcs_of (q : N) : list (sym * N) := match st_of G q with Some d => d_arcs d | None => [] end.
+
+Fixpoint chain_ok (B : N) (a : label) (ch : list N) : bool :=
+  match ch with
+  | [] => false
+  | s :: ch' =>
+    match ch' with
+    | [] => opt_is (arcT (startR B) a) s
+    | _ :: _ => existsb (fun '(sy, nx) => match sy with
+                                          | NT C => (nx =? s) && opt_is (arcN (startR B) C) s && chain_ok C a ch'
+                                          | T _ => false end) (arcs_of (startR B))
+    end
+  end.
+Lemma chain_ok_sound : forall ch B a, chain_ok B a ch = true -> first_chain N label N arcT arcN startR B a ch.
+Proof.
+  induction ch as [|s ch' IH]; intros B a H; [discriminate|]. cbn [chain_ok] in H.
+  destruct ch' as [|s2 ch2].
+  - apply fc_t. apply opt_is_ok. exact H.
+  - apply existsb_exists in H as ([sy nx] & _ & H). destruct sy as [l|C]; [discriminate|].
+    apply andb_true_iff in H as [H H3]. apply andb_true_iff in H as [_ H2].
+    apply fc_n with (C := C); [apply opt_is_ok; exact H2|apply IH; exact H3].
+Qed.
+
+Definition plan_sound_ok (q : N) (a : label) (pl : plan) : bool :=
+  (match p_pushes pl with [] => true | _ => false end && opt_is (arcT q a) (p_next pl)) ||
+  existsb (fun '(sy, nx) => match sy with
+                            | NT B => (nx =? p_next pl) && opt_is (arcN q B) (p_next pl) && chain_ok B a (p_pushes pl)
+                            | T _ => false end) (arcs_of q).
+Definition plans_sound_ok : bool :=
+  forallb (fun '(q, tr) => forallb (fun '(a, pl) => plan_sound_ok q a pl) tr) TR.
+
+Lemma assocN_in' {A} k (l : list (N * A)) v : assocN k l = Some v -> In (k, v) l.
+Proof.
+  induction l as [|[a x] r IH]; simpl; [discriminate|]. destruct (a =? k) eqn:E; intros H.
+  - inversion H; subst. apply N.eqb_eq in E. subst. left. reflexivity.
+  - right. apply IH. exact H.
+Qed.
+Lemma assocL_in' {A} k (l : list (label * A)) v : assocL k l = Some v -> In (k, v) l.
+Proof.
+  induction l as [|[a x] r IH]; simpl; [discriminate|]. destruct (label_eqb a k) eqn:E; intros H.
+  - inversion H; subst. apply label_eqb_eq in E. subst. left. reflexivity.
+  - right. apply IH. exact H.
+Qed.
+
+Lemma plans_sound_sound : plans_sound_ok = true -> forall q a q' ch, plansI q a = Some (q', ch) ->
+  (ch = [] /\ arcT q a = Some q') \/ (exists B, arcN q B = Some q' /\ first_chain N label N arcT arcN startR B a ch).
+Proof.
+  intros H q a q' ch P. unfold plansI, trans in P.
+  destruct (assocN q TR) as [tr|] eqn:A1; [|discriminate]. destruct (assocL a tr) as [pl|] eqn:A2; [|discriminate].
+  inversion P; subst q' ch. clear P.
+  unfold plans_sound_ok in H. rewrite forallb_forall in H. specialize (H _ (assocN_in' _ _ _ A1)). simpl in H.
+  rewrite forallb_forall in H. specialize (H _ (assocL_in' _ _ _ A2)). simpl in H.
+  unfold plan_sound_ok in H. apply orb_true_iff in H as [H|H].
+  - apply andb_true_iff in H as [H1 H2]. left. split; [destruct (p_pushes pl); [reflexivity|discriminate]|apply opt_is_ok; exact H2].
+  - apply existsb_exists in H as ([sy nx] & _ & H). destruct sy as [l|B]; [discriminate|].
+    apply andb_true_iff in H as [H H3]. apply andb_true_iff in H as [_ H2].
+    right. exists B. split; [apply opt_is_ok; exact H2|apply chain_ok_sound; exact H3].
+Qed.
+
+Definition arcN_valid_ok : bool :=
+  forallb (fun d => forallb (fun '(sy, _) => match sy with NT B => existsb (N.eqb B) (map fst (g_start G)) | T _ => true end) (d_arcs d)) (g_states G).
+Lemma arcN_valid_sound : arcN_valid_ok = true -> forall q B q', arcN q B = Some q' -> validR B.
+Proof.
+  intros H q B q' A. destruct (arcN_in _ _ _ A) as (d & S & I). unfold arcN_valid_ok in H. rewrite forallb_forall in H.
+  specialize (H d (st_of_in q d S)). rewrite forallb_forall in H. specialize (H _ I). simpl in H.
+  apply existsb_exists in H as (x & I1 & E). apply N.eqb_eq in E. subst. exact I1.
+Qed.
+
+Definition tables_sound_ok : bool := arcs_in_rule_ok && starts_ok && plans_sound_ok && arcN_valid_ok.
+
+(* whatever the abstract engine accepts on these tables is a derivation of the start rule, and the nodes it returns
+   are the collapsed children of that derivation *)
+Theorem tables_sound : tables_sound_ok = true ->
+  forall S0 w fr qf ns, validR S0 ->
+    LL1.feed T0 N label N mk_node (final G) (rule_of G) plansI w [(startR S0, [])] fr -> popsf T0 N N mk_node (final G) (rule_of G) fr [(qf, ns)] ->
+    final G qf = true -> w <> [] ->
+    exists kb, wf T0 N label N arcT arcN startR (final G) validR (DNode T0 label N S0 kb) /\
+               yield T0 label N (DNode T0 label N S0 kb) = w /\ ns = map (collapse T0 label N mk_node) kb /\ rule_of G qf = S0.
+Proof.
+  intros H S0 w fr qf ns V FD P F NE. unfold tables_sound_ok in H.
+  repeat (apply andb_true_iff in H as [H ?]).
+  eapply (sound_f T0 N label N mk_node arcT arcN startR (final G) (rule_of G) plansI validR (rule_start_ok H2) (rule_arcT_ok H) (rule_arcN_ok H)
+            (plans_sound_sound H1) (arcN_valid_sound H0)); eassumption.
+Qed.
 End Inst.
 Print Assumptions tables_complete.
+Print Assumptions tables_sound.
